@@ -1,4 +1,9 @@
+#[cfg(not(kani))]
 use std::collections::{BTreeMap, HashMap, HashSet};
+#[cfg(kani)]
+use std::collections::{BTreeMap, HashMap};
+#[cfg(kani)]
+use crate::verif_kani::shim::HashSet;
 use std::hash::{Hash, Hasher};
 use std::ops::Add;
 
